@@ -127,7 +127,16 @@ def searchOne (s : S) (t : Tn) (q : List Nat) (k : Nat) (ns : String) (f : Optio
         | some g => ((alookup g s.docs).map (·.vec)).getD []
         | none => []
       s!"{lid}~*~{if emb then showVec v else "-"}~{showMeta m}"
-    s!"total={total} res={if items.isEmpty then "-" else ";".intercalate items} ties={if ties then 1 else 0}"
+    -- would a client that cannot see the server-owned keys get the same answer?
+    let pub := match f with
+      | some flt =>
+        if mentionsReserved flt then
+          match Srv.search noParse s t (r.map (fun (x : Float × Nat) => x.2)) k ns (some (hideReserved flt)) with
+          | .ok (total2, res2) => if total2 == total && res2.map (fun (x : Nat × Meta) => x.1) == res.map (fun (x : Nat × Meta) => x.1) then " pub=same" else " pub=diff"
+          | .error _ => " pub=diff"
+        else ""
+      | none => ""
+    s!"total={total} res={if items.isEmpty then "-" else ";".intercalate items} ties={if ties then 1 else 0}{pub}"
 
 def usageLine (s : S) (ts : List (String × Tn)) : String :=
   let rows := ts.map fun (n, t) => (n, usageOf s t)
@@ -232,7 +241,10 @@ def step (st : St) (line : String) : St × String :=
           match parseFilterField fs with
           | some (some f) =>
             let (s', r) := Srv.batchDeleteFilter noParse s t f ns
-            ({ st with s := s' }, match r with | .ok n => s!"ok success=1 deleted={n}" | .error e => errName e)
+            let pub := if mentionsReserved f then
+                (if (Srv.batchDeleteFilter noParse s t (hideReserved f) ns).1.docs.map (·.1) == s'.docs.map (·.1)
+                 then " pub=same" else " pub=diff") else ""
+            ({ st with s := s' }, match r with | .ok n => s!"ok success=1 deleted={n}{pub}" | .error e => errName e)
           | _ => (st, "bad-op")
         | "search" =>
           match natListField? fs "q", natField? fs "k", parseFilterField fs with
@@ -246,7 +258,11 @@ def step (st : St) (line : String) : St × String :=
             match (qs.splitOn "/").mapM parseNatList with
             | some qs =>
               let outs := qs.map fun q => searchOne s t q k ns f ((boolField? fs "emb").getD false)
-              (st, "ok " ++ " | ".intercalate outs)
+              -- a status in the response stream ends it: nothing after the first refused request
+              let upTo := match outs.findIdx? (·.startsWith "err:") with
+                | some i => outs.take (i + 1)
+                | none => outs
+              (st, "ok " ++ " | ".intercalate upTo)
             | none => (st, "bad-op")
           | _, _, _ => (st, "bad-op")
         | "flush" => (st, "ok success=1 flushed=*")
